@@ -39,6 +39,7 @@ def tx_inputs(case: gen_ref.Case, anno, genome):
                      for x in as_vars(v, tx_seq, gene_seq_of(anno, genome, tx_model), series.intronic)],
             'n_fusion': len(series.fusion), 'n_circ': len(series.circ_rna),
             'n_intronic': len(series.intronic),
+            'edge_nested': sorted(x for v in series.transcriptional for x in edge_nested(v, series.intronic)),
         }
     return out
 
@@ -114,6 +115,23 @@ def as_vars(v, tx_seq, gene_seq, intronic):
         d = ''.join(donor)
         alt = (tx[s:s + 1] + d) if v.type == 'Insertion' else d
         out.append((s, e, base[2], alt, v.type, (v.id,) + tuple(c[4] for c in comb)))
+    return out
+
+
+def edge_nested(v, intronic) -> List[Tuple[str, str]]:
+    """(splicing record id, small record id) for every small record that lies inside the stretch
+    the alternative-splicing Insertion / Substitution `v` inserts AND touches its edge: its first
+    base is the first inserted base or its last base is the last inserted base (open finding
+    record-on-edge-of-inserted-stretch: the command never applies such a record)"""
+    if v.type not in ('Insertion', 'Substitution'):
+        return []
+    ds, de = v.get_donor_start(), v.get_donor_end()
+    out = []
+    for w in intronic:
+        if w.type in ('SNV', 'INDEL', 'RNAEditingSite', 'MNV'):
+            a, b = int(w.location.start), int(w.location.end)
+            if ds <= a and b <= de and (a == ds or b == de):
+                out.append((v.id, w.id))
     return out
 
 
@@ -295,7 +313,7 @@ def build_input(seed: int, opts: dict):
     return case, genome, anno, recs, rng
 
 
-MAX_FORMS = 17
+MAX_FORMS = 40
 
 
 def collapse_worker(job):
@@ -379,9 +397,12 @@ def cv_worker(job):
             out['stats']['selenoprotein'] = 1
         out['stats'][f'nvars_{min(len(tx["vars"]), 9)}'] = 1
         if len(tx['vars']) > MAX_FORMS:
-            # Spec.haplotypes enumerates ALL sub-collections of the record pool before it filters
-            # the compatible ones (2^n): a splicing record with several nested records expands
-            # into 2^k forms; beyond MAX_FORMS the definition is not evaluated (counted, never judged)
+            # a splicing record with several nested records expands into 2^k mutually overlapping
+            # forms.  The DEFINITION Spec.haplotypes enumerates all 2^n sub-collections of the pool;
+            # the compiled driver evaluates the pruned enumerator Spec.haplotypesFast instead (proved
+            # equal, `@[csimp] haplotypes_eq_fast`), whose cost is the number of COMPATIBLE
+            # sub-collections, so the cap is only a guard against absurd inputs (was 17 before the
+            # pruned enumerator); beyond it the definition is not evaluated (counted, never judged)
             out['stats']['skipped_too_many_forms'] = 1
             return out
         if case.meta.get('context_snv'):
@@ -396,6 +417,9 @@ def cv_worker(job):
             out['stats']['planted_tryptophan_cluster'] = 1
         if any(isinstance(v[5], tuple) for v in tx['vars']):
             out['stats']['with_nested_in_splicing_insertion'] = 1
+        if tx.get('edge_nested'):
+            desc['edge_nested'] = [list(x) for x in tx['edge_nested']]
+            out['stats']['with_record_on_edge_of_inserted_stretch'] = 1
         out['stats'][f'enzyme_{kw["cleavage_rule"]}'] = 1
         if run.status != 'ok':
             out['stats']['crash'] = 1
